@@ -19,8 +19,9 @@ from vf.sim.scenario import Sim
 LEVEL = "exploration"
 RULE = ("histories of 1-30 steps on one APIClient over several consecutive sessions from {start_connection, finish_connection, connect (awaited / left pending / "
         "1 ms later) against a device that is ok | unresolvable | refusing | hanging at TCP | sending garbage at hello | rejecting the password | silent; "
-        "disconnect(), disconnect(force=True), cancel of the pending call, device EOF / RST / DisconnectRequest / garbage, a public API method (rotating over "
-        "every recipe of the API sweep: commands, subscriptions, requests), advance 1 ms / 1 s / 100 s}; ALL histories up to length 3 (quick) / 4 (thorough) over a "
+        "disconnect(), disconnect(force=True), cancel of the pending call, device EOF / RST / DisconnectRequest / garbage, a request whose answer shares one chunk with a DisconnectRequest / garbage, "
+        "a stop callback that reconnects at once from inside the callback, a public API method (rotating over every recipe of the API sweep: commands, "
+        "subscriptions, requests), advance 1 ms / 1 s / 100 s}; ALL histories up to length 3 (quick) / 4 (thorough) over a "
         "12-symbol alphabet followed by a start probe, plus seeded random histories. Model over the class-boundary event log: attempt = a start/finish call is "
         "in progress, or start succeeded and neither finish nor disconnect was called since; alive = finish succeeded and neither the connection's stop hook "
         "nor a returned disconnect since. Oracle: start_connection refuses with 'Already connected' ONLY IF attempt or alive (never wedged), and MUST refuse "
@@ -83,6 +84,25 @@ def run_history(hist: list[Any]) -> dict[str, Any]:
             sim.net.dns["dev.example.com"] = ["10.0.0.1"]
             calls: list[Any] = []
             events: list[Any] = []
+            armed = {"n": 0}
+
+            def mk_on_stop() -> Any:
+                base = sim.on_stop_cb()
+
+                async def on_stop(expected: bool) -> None:
+                    await base(expected)
+                    if armed["n"] > 0:
+                        # the application reconnects from inside its stop callback, at once (what a reconnect manager does after an
+                        # unexpected disconnect): the session is over, no attempt is in progress - this must be accepted
+                        armed["n"] -= 1
+                        apply_world(sim, cfg, "ok")
+                        sim.net.dns["dev.example.com"] = ["10.0.0.1"]
+                        try:
+                            await cli.start_connection(on_stop=mk_on_stop())
+                        except BaseException:  # noqa: BLE001  (outcome is in the boundary log)
+                            pass
+
+                return on_stop
 
             def rec_cb(*a: Any) -> None:
                 events.append(a)
@@ -103,9 +123,9 @@ def run_history(hist: list[Any]) -> dict[str, Any]:
                     if step[1] != "dns-fail":
                         sim.net.dns["dev.example.com"] = ["10.0.0.1"]
                     if op == "start":
-                        r = sim.call("start", lambda: cli.start_connection(on_stop=sim.on_stop_cb()))
+                        r = sim.call("start", lambda: cli.start_connection(on_stop=mk_on_stop()))
                     else:
-                        r = sim.call("connect", lambda: cli.connect(on_stop=sim.on_stop_cb(), login=True))
+                        r = sim.call("connect", lambda: cli.connect(on_stop=mk_on_stop(), login=True))
                     calls.append(r)
                     wait(r, step[2])
                 elif op == "finish":
@@ -139,6 +159,8 @@ def run_history(hist: list[Any]) -> dict[str, Any]:
                         sim.settle()
                     else:
                         skipped += 1
+                elif op == "arm-reconnect":
+                    armed["n"] += 1
                 elif op == "dev":
                     live = [c for c in dev.conns if not c.sock.closed]
                     if not live:
@@ -146,6 +168,29 @@ def run_history(hist: list[Any]) -> dict[str, Any]:
                         continue
                     c = live[-1]
                     kind = step[1]
+                    if kind.startswith("resp+"):
+                        # a request is in flight and the device puts its answer and a closing event into ONE chunk
+                        conn_now = cli._connection  # noqa: SLF001
+                        if conn_now is None or not conn_now.is_connected:
+                            skipped += 1
+                            continue
+                        from aioesphomeapi import api_pb2 as _pb  # noqa: PLC0415
+
+                        def answer(dc: Any, m: Any, kind: str = kind) -> None:
+                            items = [("msg", dc.proto.id_of("DeviceInfoResponse"), _pb.DeviceInfoResponse(name="dev").SerializeToString())]
+                            if kind == "resp+discreq":
+                                items.append(("msg", dc.proto.id_of("DisconnectRequest"), b""))
+                            else:
+                                items.append(("raw", b"\x42\x13\x37"))
+                            dc.deliver_items(items, 0.0)
+                            cfg.handlers.pop("DeviceInfoRequest", None)
+
+                        cfg.handlers["DeviceInfoRequest"] = answer
+                        r = sim.call("device_info", lambda: cli.device_info())
+                        calls.append(r)
+                        sim.run_for(0.05)
+                        cfg.handlers.pop("DeviceInfoRequest", None)
+                        continue
                     if kind == "eof":
                         c.eof(0.0)
                     elif kind == "rst":
@@ -237,6 +282,11 @@ def judge(hist: list[Any], o: dict[str, Any]) -> tuple[list[tuple[str, str]], di
             cur_conn = e
         elif kind == "closed":
             conn_closed.add(e)
+            if alive and e == cur_conn:
+                # the session is over the moment its connection is CLOSED - whether or not the stop hook (which is what clears the
+                # client's reference) ever fires
+                alive = False
+                last_reason = "after the session's connection was closed"
         elif kind == "on_stop":
             if alive:
                 last_reason = "after the session ended (stop hook)"
@@ -320,6 +370,7 @@ def judge(hist: list[Any], o: dict[str, Any]) -> tuple[list[tuple[str, str]], di
 ALPHABET: list[Any] = [
     ["start", "ok", "done"], ["start", "ok", "none"], ["start", "refuse", "done"], ["finish", "done"], ["finish", "none"],
     ["disconnect", "done"], ["force"], ["cancel"], ["dev", "eof"], ["api", 0], ["run", 0.001], ["connect", "ok", "done"],
+    ["arm-reconnect"], ["dev", "resp+discreq"],
 ]
 
 
@@ -341,7 +392,9 @@ def gen_history(rng: Any) -> list[Any]:
         elif r < 0.70:
             h.append(["cancel"])
         elif r < 0.80:
-            h.append(["dev", rng.choice(["eof", "rst", "discreq", "garbage"])])
+            h.append(["dev", rng.choice(["eof", "rst", "discreq", "garbage", "resp+discreq", "resp+garbage"])])
+            if rng.random() < 0.3:
+                h.insert(len(h) - 1, ["arm-reconnect"])
         elif r < 0.92:
             h.append(["api", rng.randrange(1000)])
         else:
@@ -396,7 +449,7 @@ def shard(ctx: Ctx) -> None:
 
 
 def exhaustive(tier: str) -> Any:
-    return [f"all histories of length <= {4 if tier == 'thorough' else 3} over the 12-symbol alphabet {ALPHABET}, each followed by a final start probe"]
+    return [f"all histories of length <= {4 if tier == 'thorough' else 3} over the 14-symbol alphabet {ALPHABET}, each followed by a final start probe"]
 
 
 def replay(spec: dict[str, Any]) -> int:
